@@ -64,7 +64,8 @@ TBase == /\ Is("Base") /\ t.ph \in {"written", "resolved2", "vulns2"}
          /\ Ev.k \in 1..Len(t.patches)
          /\ \E u \in t.patches[Ev.k].ups : u.name = Ev.name
          /\ t' = [t EXCEPT !.bases = @ \cup {[k |-> Ev.k, name |-> Ev.name, base |-> Ev.base, after |-> Ev.after,
-                                              toKind |-> Ev.toKind, toAt |-> Ev.toAt, hard |-> Ev.hard, fromRange |-> Ev.fromRange]}]
+                                              toKind |-> Ev.toKind, toAt |-> Ev.toAt, hard |-> Ev.hard, fromRange |-> Ev.fromRange,
+                                              combo |-> Ev.src = "applied-combination"]}]
 TError == /\ Is("Error") /\ t.ph \in {"parsed", "resolved1"}
           /\ t' = [t EXCEPT !.ph = "error"]
 \* a trace ends only when C11 has been evaluated for every update of every proposed/applied patch
@@ -87,7 +88,10 @@ DevUnfixingT(b) == "C11-override-unfixing-patch" \in Devs /\ t.scn.strategy = "o
 DevUpdateHardT(b) == "C11-update-maven-hard-range" \in Devs /\ t.scn.mode = "update" /\ b.hard
 \* override rewrote the manifest's own hard range to a soft version; another package's disjoint hard range takes over
 DevOverrideHardT(b) == "C11-override-maven-hard-range" \in Devs /\ t.scn.strategy = "override" /\ b.hard /\ b.fromRange
-DevHardT(b) == DevUnfixingT(b) \/ DevUpdateHardT(b) \/ DevOverrideHardT(b)
+\* several applied patches judged together: each override was vetted on its own, the upgrade chosen by another patch
+\* brings a hard range on the overridden package (choosePatches does not re-resolve the combination)
+DevOverrideCombinedT(b) == "C11-override-combined-hard-range" \in Devs /\ t.scn.strategy = "override" /\ b.hard /\ b.fromRange /\ b.combo
+DevHardT(b) == DevUnfixingT(b) \/ DevUpdateHardT(b) \/ DevOverrideHardT(b) \/ DevOverrideCombinedT(b)
 DevExplicitT(p) == /\ "C12-explicit-introduced" \in Devs /\ t.scn.explicit # <<>>
                    /\ ~(p.intro \subseteq ToSet(t.scn.explicit))
 
